@@ -123,5 +123,6 @@ def check(case):
 
 
 def shrink(case):
+    yield from common.shrink_faults(case, ("main",))
     yield from common.shrink_tasks(case, {"main"})
     yield from common.shrink_bytes_tail(case)
